@@ -222,8 +222,16 @@ template <class L> class LabeledFamily : public IAlgoFamily {
             std::vector<E> vms(ms.begin(), ms.end()), vst(st.begin(), st.end());
             if (!(DG(ms) == DG(vms)) || !(UG(ms) == UG(vms)) || encOf(DG(ms)) != encOf(DG(vms)))
                 r.fail("constructor from std::multiset differs from the same sequence in a std::vector");
-            if (!(DG(st) == DG(vst)) || !(UG(st) == UG(vst)) || encOf(UG(st)) != encOf(UG(vst)))
+            if (!(DG(st) == DG(vst)) || !(UG(st) == UG(vst)) || encOf(UG(st)) != encOf(UG(vst)) || encOf(DG(st)) != encOf(DG(vst)))
                 r.fail("constructor from std::set differs from the same sequence in a std::vector");
+            // ... and with a comparator of the caller's choosing (descending iteration order)
+            std::set<E, std::greater<E>> sg(v.begin(), v.end());
+            std::multiset<E, std::greater<E>> msg(v.begin(), v.end());
+            std::vector<E> vsg(sg.begin(), sg.end()), vmsg(msg.begin(), msg.end());
+            if (encOf(UG(sg)) != encOf(UG(vsg)) || encOf(DG(sg)) != encOf(DG(vsg)) || !(UG(sg) == UG(vsg)))
+                r.fail("constructor from std::set<.., std::greater> differs from the same sequence in a std::vector");
+            if (encOf(UG(msg)) != encOf(UG(vmsg)) || encOf(DG(msg)) != encOf(DG(vmsg)) || encOf(UG(ms)) != encOf(UG(vms)))
+                r.fail("constructor from std::multiset<.., std::greater> differs from the same sequence in a std::vector");
         }
     }
 
